@@ -783,7 +783,8 @@ func (r *seqRun) finish() {
 	w.mu.Lock()
 	defer w.mu.Unlock()
 	for _, h := range w.all {
-		if h.everBound && h.released == 0 && !r.diverged {
+		// (sound even after the reference table diverged: everBound was set while it still agreed)
+		if h.everBound && h.released == 0 {
 			r.fail("C13", "session.release.leak", fmt.Sprintf("entry %d was bound to a fid and is never released, even by Stop", h.id))
 		}
 	}
